@@ -150,7 +150,9 @@ AllNext ==
                     /\ \E c2 \in ChangesOf(ApplyOne(docs[u], c1)) :
                           Allowed(ApplyOne(docs[u], c1), c2) /\ Change(u, <<c1, c2>>)
 
-Next == IF Rand THEN RandNext ELSE (AllNext /\ drawn' = drawn)
+(* the depth guard comes first: a history of MaxOps notifications has no successor, and TLC does not enumerate the
+   (large) sets of changes only to find every disjunct disabled *)
+Next == More /\ (IF Rand THEN RandNext ELSE (AllNext /\ drawn' = drawn))
 
 Spec == Init /\ [][Next]_vars
 
